@@ -655,6 +655,41 @@ def run(ctx):
                 r2j(s, e, [a], tag, crv=crv, zip_=not z, aad=aad, apu=apv, apv=apu, spell=sp[n % len(sp)],
                     alg_in_protected=n % 2 == 0, unprotected={"cty": "x"} if (s != "compact" and n % 5 == 0) else None)
                 n += 1
+    # BINARY PartyUInfo / PartyVInfo (thumbprints, hashes): the base64url text contains "-" and "_"; lengths 0..64;
+    # values whose text has length 1 mod 4 once "-" / "_" are taken out; in the protected, per-recipient and shared
+    # unprotected position; every key-agreement algorithm, both directions
+    def party_values():
+        vals = [b"\xfb\xef\xbe", b"\xff\xff\xff", b"\xf8", b"\xfc", b"\xfb\xff", b"", b"\xfb\xef\xbe\xf8"]
+        for ln in (1, 2, 3, 5, 16, 20, 32, 33, 48, 64):
+            v = bytes(rng.getrandbits(8) for _ in range(ln))
+            vals.append(v)
+            vals.append(b"\xfb\xff\xbf" + v + b"\xfe")      # "-_-_..." at the start, "_" or "-" near the end
+        return vals
+    pvals = party_values()
+    assert any("-" in b64u(v) and "_" in b64u(v) for v in pvals)
+    kag = J.ES_ALGS + J.PU_ALGS
+    pn = 0
+    for a in kag:
+        for s in sers:
+            for place in (["header"] if s == "compact" else ["header", "unprotected"]):
+                for rep in range(ctx.scale(2, 8)):
+                    e = rng.choice([x for x in J.ALL_ENCS if J.valid_combo(a, x)])
+                    crv = J.ALL_CURVES[pn % 6]
+                    u, v = pvals[pn % len(pvals)], pvals[(pn * 7 + 3) % len(pvals)]
+                    pn += 1
+                    tag = "party-info:%s/%s/%s/%s/%s" % (a, e, s, crv, place)
+                    if place == "header":
+                        spec = J.make_spec(K, rng, s, [a], e, crv=crv, plaintext=b"binary party info", apu=u, apv=v,
+                                           alg_in=rng.choice(["auto", "protected"]))
+                        j2r(spec, tag)
+                        r2j(s, e, [a], tag, crv=crv, apu=u, apv=v, alg_in_protected=pn % 2 == 0)
+                    else:
+                        un = {"apu": b64u(u), "apv": b64u(v)}
+                        spec = J.make_spec(K, rng, s, [a], e, crv=crv, plaintext=b"binary party info", unprotected=dict(un))
+                        j2r(spec, tag)
+                        r2j(s, e, [a], tag, crv=crv, unprotected=dict(un), alg_in_protected=pn % 2 == 0)
+                    bump("party-info")
+
     # zip = DEF over plaintext classes (empty, tiny, repetitive, incompressible, 100 KB) through the STRICT reference
     zclasses = [("empty", b""), ("one", b"x"), ("tiny", b"ab"), ("block", bytes(16)), ("text", b"to be or not to be " * 40),
                 ("random-1k", bytes(rng.getrandbits(8) for _ in range(1024))),
